@@ -66,13 +66,23 @@ func HarnessC03(fam, nT, nX, convCode, form, sv, mode int) {
 	w.Vals = append(exact, w.Vals...)
 	vnNote(w.String())
 	vnOnDivergence("", "")
-	r, built, panicked, _ := w.hCall()
-	if !built {
+	args, ok := w.hBuildAll()
+	if !ok {
 		vnAssume(false)
 	}
-	if panicked {
+	// run-once providers may already hold a cached result from an earlier, unrelated use
+	for _, c := range w.Convs {
+		if c.Once && len(c.In) == 0 && vnBool("prewarm", c.ID) {
+			w.Funcs[c.ID].Call()
+			vnNoteAppend(fmt.Sprintf(" (conv%d already executed once)", c.ID))
+		}
+	}
+	w.Log = nil
+	var r Result
+	if hGuardPlain(func() { r = w.Funcs[0].Call(args...) }) {
 		return
 	}
+	vnTrace(fmt.Sprintf("outcome=%d", hOutcome(r, false)))
 	vnCover("C03.call-returned")
 	cls := w.classifyExact()
 	vnAssertK(r.Err() == nil, "C03.call-succeeds", cls)
@@ -108,6 +118,50 @@ func HarnessC03(fam, nT, nX, convCode, form, sv, mode int) {
 	if len(w.Convs) > 0 {
 		vnCover("C03.with-distractor-converter")
 	}
+	// the same call again on the same objects (run-once distractors now hold a cached result)
+	anyOnce := false
+	for _, c := range w.Convs {
+		if c.Once {
+			anyOnce = true
+		}
+	}
+	if !anyOnce || r.Err() != nil {
+		return
+	}
+	w.Log = nil
+	args2 := []Arg{}
+	for _, v := range w.Vals {
+		args2 = append(args2, NamedSubtype(v.L.Name, hMk(v.L.T, v.ID), v.L.Sub))
+	}
+	for _, c := range w.Convs {
+		args2 = append(args2, ConverterFunc(w.Funcs[c.ID]))
+	}
+	var r2 Result
+	if hGuardPlain(func() { r2 = w.Funcs[0].Call(args2...) }) {
+		return
+	}
+	vnAssertK(r2.Err() == nil, "C03.second-call-succeeds", cls)
+	for _, ex := range w.Log {
+		if ex.Fn != 0 {
+			vnAssertK(false, "C03.no-converter-executed-in-the-second-call", cls)
+			continue
+		}
+		for i, p := range w.Target.In {
+			rc := ex.Recv[i]
+			if p.Name != "" {
+				vnAssertK(rc.T == p.T && rc.ID == exact[i].ID, "C03.second-call-named-parameter-receives-its-exact-input", cls)
+			} else {
+				ok := false
+				for _, v := range w.Vals {
+					if v.L.T == p.T && rc.T == p.T {
+						ok = vnOr(ok, rc.ID == v.ID)
+					}
+				}
+				vnAssertK(ok, "C03.second-call-typed-parameter-receives-a-supplied-value-of-its-type", cls)
+			}
+		}
+	}
+	vnCover("C03.second-call-checked")
 }
 
 func (w *hWorld) classifyExact() string { return "" }
@@ -119,6 +173,15 @@ func HarnessC04(fam, nT, nV, convCode, form, sv, mode int) {
 	// the target returns one value and a final error which it may report
 	w.Target.HasErr = true
 	w.Target.Fails = vnBool("fails", 0)
+	anyPtr := w.Target.Form == hFormPtrStruct && len(w.Target.Out) > 0
+	for _, c := range w.Convs {
+		if c.Form == hFormPtrStruct && len(c.Out) > 0 {
+			anyPtr = true
+		}
+	}
+	if anyPtr && vnBool("nilPtrOnFail") {
+		w.NilPtrOnFail = true
+	}
 	vnNote(w.String())
 	vnOnDivergence("", "")
 	r, built, panicked, _ := w.hCall()
@@ -163,6 +226,29 @@ func HarnessC04(fam, nT, nV, convCode, form, sv, mode int) {
 		for _, ex := range w.Log {
 			vnAssert(!ex.Err, "C04.no-error-means-no-failing-execution")
 		}
+	}
+	// a run-once converter that failed keeps failing: the identical call again must
+	// abort with the same error object and must not run the target
+	if first >= 0 && w.Log[first].Fn != 0 && w.specOf(w.Log[first].Fn).Once {
+		fn := w.Log[first].Fn
+		w.Log = nil
+		var r2 Result
+		args2 := []Arg{}
+		for _, v := range w.Vals {
+			args2 = append(args2, NamedSubtype(v.L.Name, hMk(v.L.T, v.ID), v.L.Sub))
+		}
+		for _, c := range w.Convs {
+			args2 = append(args2, ConverterFunc(w.Funcs[c.ID]))
+		}
+		if hGuardPlain(func() { r2 = w.Funcs[0].Call(args2...) }) {
+			vnAssert(false, "C04.second-call-does-not-panic")
+			return
+		}
+		vnAssert(r2.Err() == w.Errs[fn], "C04.memoized-failure-aborts-later-calls-with-the-same-error")
+		for _, ex := range w.Log {
+			vnAssert(ex.Fn != 0, "C04.target-not-executed-after-memoized-failure")
+		}
+		vnCover("C04.memoized-failure-checked")
 	}
 }
 
